@@ -405,11 +405,15 @@ impl Datamodel for RFsmExpressionDatamodel {
         let mut io_processors_dings = HashMap::new();
         for (name, processor) in &self.global_data.lock().unwrap().io_processors {
             let mut processor_data = HashMap::new();
-            let location = create_data_arc(Data::String(
+            let mut location = create_data_arc(Data::String(
                 processor.lock().unwrap().get_location(session_id),
             ));
+            // Not only the _ioprocessors map, also its entries are read-only for the document.
+            location.set_readonly(true);
             processor_data.insert("location".to_string(), location);
-            io_processors_dings.insert(name.clone(), create_data_arc(Data::Map(processor_data)));
+            let mut processor_arc = create_data_arc(Data::Map(processor_data));
+            processor_arc.set_readonly(true);
+            io_processors_dings.insert(name.clone(), processor_arc);
         }
         let mut data_arc = create_data_arc(Data::Map(io_processors_dings));
         data_arc.set_readonly(true);
